@@ -88,7 +88,7 @@ def clause_for(report, origin):
             return c
     return None
 
-def analyse(unit, vr, linemap, report, gen_path=''):
+def analyse(unit, vr, linemap, report, gen_path='', frame_type=None):
     """Turn verus diagnostics into failures / undecided reasons."""
     failures = []
     undecided = []
@@ -106,6 +106,19 @@ def analyse(unit, vr, linemap, report, gen_path=''):
         kind = classify_message(msg)
         if any(re.search(rx, msg) for rx in UNDECIDED_MSG):
             undecided.append('verus: ' + msg)
+            continue
+        if code in ('E0609', 'E0616', 'E0599') and frame_type and frame_type in msg:
+            # rule C19/u_frame: the unit is compiled against an opaque ClientInfo; touching one of its fields is
+            # the one front-end error that is a named obligation, not an undecided run
+            sp0 = (d.get('spans') or [{}])[0]
+            o = origin_of(linemap, sp0.get('line_start', 0))
+            fs_ = enclosing_fn(report, sp0.get('line_start', 0))
+            fn_ = fs_['fn'] if fs_ else '?'
+            site_ = ('%s:%d' % (o['file'], o['line'])) if o and o.get('file') else None
+            failures.append({'obligation': '%s/%s/frame/reads-ClientInfo@%s' % (unit, fn_, site_), 'unit': unit, 'fn': fn_, 'kind': 'frame',
+                             'message': msg, 'tags': ['C19'], 'clause': 'the responder does not read any field of ClientInfo (ports, addresses)',
+                             'clause_at': None, 'site': site_, 'site_text': (sp0.get('text') or [{}])[0].get('text', '').strip() if sp0.get('text') else '',
+                             'spans': [], 'rendered': d.get('rendered', '')})
             continue
         if kind is None or code:
             undecided.append('front-end error: %s%s' % (msg, (' [%s]' % code) if code else ''))
@@ -280,7 +293,10 @@ def run_unit(name, outdir, repo='/repo', canary=False, contracts=None, extra=Non
     path = os.path.join(outdir, name + ('_canary' if canary else '') + '.rs')
     open(path, 'w').write(text)
     vr = run_verus(path, extra=extra, multiple_errors=(1 if canary else 20))
-    failures, undecided = analyse(name, vr, linemap, u.report, path)
+    failures, undecided = analyse(name, vr, linemap, u.report, path, frame_type=u.cfg.get('frame_type'))
+    # a frame violation makes the rest of the front-end output irrelevant
+    if any(f['kind'] == 'frame' for f in failures):
+        undecided = []
     # resource limit in a function: isolate its clauses (only outside canary mode)
     if not canary:
         rl_fns = set()
